@@ -159,11 +159,55 @@ theorem C04_C08_body_ga_fold (f : Nat → Bool) (xs : List Id) (hw : xs.length <
   rw [h1]
   exact (GA.Props.C08.fold_spec .owned xs).2
 
+/-! ## C08 / C04 — `FunctionalSequence::map` on an owned array, on the interpreted body -/
+
+def mapCtx (n : Nat) (f : Nat → Option Id) : Ctx :=
+  { n := n, bad := none, fpan := fun _ => false, cl := f }
+
+theorem ga_map_run (f : Nat → Option Id) (xs : List Id) (hw : xs.length < word) :
+    (runFn2 (mapCtx xs.length f) Gen.Body.consumerDrop.body Gen.Body.intrusiveDrop.body Gen.Body.gaMap [] (fst0 xs)).1
+      = (GA.Ops.mapOp .owned f xs).1 ∧
+    resOf (runFn2 (mapCtx xs.length f) Gen.Body.consumerDrop.body Gen.Body.intrusiveDrop.body Gen.Body.gaMap [] (fst0 xs)).2.1
+      = some (GA.Ops.mapOp .owned f xs).2 := by
+  have h := gaMap_body xs hw (mapCtx xs.length f) rfl rfl 0
+  exact ⟨congrArg Prod.fst h, congrArg Prod.snd h⟩
+
+/-- **C08: `map` applies the function to `a[0], a[1], …` once each, in order, and stores result `i`
+    at position `i`** — on the interpretation of the whole call chain `map → from_iter →
+    try_from_iter → extend` with the `Map` adaptor's closure, regenerated from the current source -/
+theorem C08_body_map (g : Nat → Id) (xs : List Id) (hw : xs.length < word) :
+    let r := runFn2 (mapCtx xs.length fun i => some (g i)) Gen.Body.consumerDrop.body Gen.Body.intrusiveDrop.body
+      Gen.Body.gaMap [] (fst0 xs)
+    resOf r.2.1 = some (.ok ((List.range xs.length).map g)) ∧
+    GA.Func.args r.1 = (List.range xs.length).zip xs ∧
+    GA.Func.rets r.1 = (List.range xs.length).map (fun i => (i, g i)) := by
+  obtain ⟨h1, h2⟩ := ga_map_run (fun i => some (g i)) xs hw
+  obtain ⟨a, b, c⟩ := GA.Props.C08.map_spec .owned g xs
+  exact ⟨by rw [h2]; exact congrArg some a, by rw [h1]; exact b, by rw [h1]; exact c⟩
+
+/-- **C04: whichever call of the mapping function panics**, every input element is handed to it or
+    dropped, every result is in the returned array or dropped — exactly once; no never-written slot
+    is dropped or returned -/
+theorem C04_body_map (f : Nat → Option Id) (xs : List Id) (hw : xs.length < word) :
+    let r := runFn2 (mapCtx xs.length f) Gen.Body.consumerDrop.body Gen.Body.intrusiveDrop.body Gen.Body.gaMap [] (fst0 xs)
+    ∃ res, resOf r.2.1 = some res ∧ (gives r.1 ++ drops r.1 ++ res.ids).Perm (xs ++ takes r.1) ∧ uninitDrops r.1 = 0 := by
+  obtain ⟨h1, h2⟩ := ga_map_run f xs hw
+  refine ⟨_, h2, ?_⟩
+  rw [h1]
+  obtain ⟨hp, hu⟩ := GA.Props.C04.map_ledger .owned f xs
+  exact ⟨by simpa using hp, hu⟩
+
 -- non-vacuity: the interpreter runs the translated body
 example : resOf (runFn (scriptCtx 3 (0, none) ⟨[some 7, some 8, some 9, none], 0, none⟩) Gen.Body.intrusiveDrop.body
     Gen.Body.tryFromIter [] (st0 ⟨[some 7, some 8, some 9, none], 0, none⟩)).2.1 = some (.ok [7, 8, 9]) := by decide
 example : (runFn (scriptCtx 3 (0, none) ⟨[some 7, some 8, some 9, some 1], 0, none⟩) Gen.Body.intrusiveDrop.body
     Gen.Body.tryFromIter [] (st0 ⟨[some 7, some 8, some 9, some 1], 0, none⟩)).2.1 = R.ret .err := by decide
+/-- `map` with the function panicking on its third call: the two results are dropped by the builder,
+    the unread input by the consumer, the element in flight was given to the closure -/
+example :
+    let r := runFn2 (mapCtx 4 fun i => if i = 2 then none else some (100 + i)) Gen.Body.consumerDrop.body
+      Gen.Body.intrusiveDrop.body Gen.Body.gaMap [] (fst0 [1, 2, 3, 4])
+    (gives r.1, drops r.1, r.2.1) = ([1, 2, 3], [100, 101, 4], R.panicked) := by decide
 example : drops (runFn (scriptCtx 3 (0, none) ⟨[some 7, some 8, some 9, some 1], 0, none⟩) Gen.Body.intrusiveDrop.body
     Gen.Body.tryFromIter [] (st0 ⟨[some 7, some 8, some 9, some 1], 0, none⟩)).1 = [1, 7, 8, 9] := by decide
 
@@ -177,3 +221,5 @@ end GA.Props.BodyCollect
 #print axioms GA.Props.BodyCollect.C08_body_generate
 #print axioms GA.Props.BodyCollect.C04_body_generate
 #print axioms GA.Props.BodyCollect.C04_C08_body_ga_fold
+#print axioms GA.Props.BodyCollect.C08_body_map
+#print axioms GA.Props.BodyCollect.C04_body_map
